@@ -36,7 +36,7 @@ LEVEL_TEXT = ('Exhaustive inside the stated skeleton-size and vector-length boun
               'each executed path is checked edge by edge against the graph built by the current tree.')
 LEVEL_NOTE = 'Trusted: CPython executing the instrumented copy; vf/instrument.py probe placement; the syntactic dead-code analysis.'
 
-EXCL_HANDLER_JUMPS = True   # F23 known finding: jumps in a handler of a try that has a finally
+EXCL_HANDLER_JUMPS = False   # F23 was repaired in /repo (fix: commit); jumps in handlers of try/finally are generated again
 
 
 def budget(tier):
